@@ -65,6 +65,10 @@ func checkString(c *core.Ctx, s string, desc, shape string) {
 			return
 		}
 	}
+	if tr := DecodeTrickle(enc.Bytes, nil); !tr.OK() || fmt.Sprint(tr.Val) != fmt.Sprint(func() interface{} { d := Decode(enc.Bytes, nil); return d.Val }()) {
+		report("decode", "other-reader", "decoding through a reader that returns one byte per Read fails or gives another value", fmt.Sprint(tr.Err, tr.Panic))
+		return
+	}
 	dec := Decode(enc.Bytes, nil)
 	if !dec.OK() {
 		report("decode", "error", fmt.Sprint(dec.Err, dec.Panic, dec.Runaway), hexs(enc.Bytes))
